@@ -134,6 +134,22 @@ std::string handle(const std::string& op, Args& a)
 			return after;
 		return "ok" + fresh.substr(2) + after.substr(2);
 	}
+	if(op == "c14.histinline")
+	{
+		// debugging aid: history and target in-process, diagnostics go to the harness log (argv[1])
+		Call c	  = parse_call(a);
+		size_t nh = a.u64();
+		std::vector<Call> hist;
+		for(size_t i = 0; i < nh; i++)
+			hist.push_back(parse_call(a));
+		a.end();
+		Rec r;
+		for(auto& h : hist)
+			do_call(h, r);
+		Out o;
+		o << do_call(c, r) << r.calls;
+		return "ok" + o.s.str();
+	}
 	if(op == "c14.front2" || op == "c14.front3")
 	{
 		// 2-D / 3-D front ends with the Monte-Carlo methods: region order, bounding box, value
